@@ -496,7 +496,7 @@ class DimensionValue(Value):
 
     Covers DIMENSION, PERCENTAGE or NUMBER values.
     """
-    __reUnNumDim = re.compile(r'^([+-]?)(\d*\.\d+|\d+)(.*)$', re.I | re.U | re.X | re.S)
+    __reUnNumDim = re.compile(r'^([+-]?)([0-9]*\.[0-9]+|[0-9]+)(.*)$', re.I | re.U | re.X | re.S)
     _dimension = None
     _sign = None
 
